@@ -539,8 +539,8 @@ const mvh_class wl_uncond = { "uncond", U_NPAR, uncond_names, uncond_gen, uncond
 /* ================================================================== */
 /* felock (C09): single-slot mailbox                                   */
 /* ================================================================== */
-enum { F_NP = Q_COMMON, F_NC, F_K, F_READERS, F_NPAR };
-static const char *const felock_names[] = { COMMON_NAMES, "np", "nc", "k", "readers" };
+enum { F_NP = Q_COMMON, F_NC, F_K, F_READERS, F_PEEKERS, F_NPAR };
+static const char *const felock_names[] = { COMMON_NAMES, "np", "nc", "k", "readers", "peekers" };
 static myth_felock_t FE;
 static volatile long fe_slot, fe_consumed;
 static int fe_seen[4096];
@@ -548,6 +548,7 @@ static int fe_seen[4096];
 static void felock_gen(mvsim_rng *r, long *p, int tier) {
   p[F_NP] = mvh_range(r, 1, 4); p[F_NC] = mvh_range(r, 1, 4); p[F_K] = mvh_range(r, 1, tier ? 6 : 3);
   p[F_READERS] = mvh_range(r, 0, 2);
+  p[F_PEEKERS] = mvh_chance(r, 500) ? mvh_range(r, 1, 4) : 0;
   gen_common(r, p, 12);
 }
 static void *fe_producer(void *arg) {
@@ -589,17 +590,44 @@ static void *fe_reader(void *arg) {
   }
   return (void *)((long)arg + 1);
 }
+/* a peeker waits for 'full', reads the slot and leaves it full (readFF): its mark_and_signal(1) does
+   not change the status but must pass the wake-up on to the next thread waiting for 'full' */
+static volatile long fe_peeks;
+static void *fe_peeker(void *arg) {
+  for (int i = 0; i < 2; i++) {
+    YIELD((long)arg * 89 + i);
+    int rc = myth_felock_wait_and_lock(&FE, 1);
+    MVH_CHECK(rc == 0, "C09-RC", "wait_and_lock returned %d", rc);
+    MVH_CHECK(myth_felock_status(&FE) == 1 && fe_slot != 0, "C09-STATUS", "peeker got the lock with status %d slot %ld", myth_felock_status(&FE), (long)fe_slot);
+    fe_peeks++;
+    mvsim_user_point();
+    myth_felock_mark_and_signal(&FE, 1);
+  }
+  return (void *)((long)arg + 1);
+}
 static void felock_run(const long *p, mvsim_runcfg *cfg, mvsim_runstats *st) {
   P = p;
   fe_slot = 0; fe_consumed = 0; memset(fe_seen, 0, sizeof fe_seen);
   int np = (int)p[F_NP], nc = (int)p[F_NC], nr = (int)p[F_READERS];
   wl_begin(cfg, p[Q_NWORKERS], 32, p[Q_QSIZE], (int)p[Q_PFIRST]);
   myth_felock_init(&FE, 0);
-  for (long i = 0; i < np + nc + nr; i++) {
-    TH[i] = myth_create(i < np ? fe_producer : i < np + nc ? fe_consumer : fe_reader, (void *)i);
+  int npk = (int)p[F_PEEKERS]; fe_peeks = 0;
+  /* peekers may start before, between or after the others */
+  for (long i = 0; i < np + nc + nr + npk; i++) {
+    long k = (wl_mix(P[Q_SEED], 555) & 1) ? i : np + nc + nr + npk - 1 - i;
+    TH[k] = myth_create(k < np ? fe_producer : k < np + nc ? fe_consumer : k < np + nc + nr ? fe_reader : fe_peeker, (void *)k);
     YIELD(i + 90);
   }
   join_all(np + nc + nr);
+  if (npk) {
+    /* every item has been consumed; fill the slot a last time so that the remaining peeks can complete */
+    myth_felock_wait_and_lock(&FE, 0);
+    fe_slot = 4095;
+    myth_felock_mark_and_signal(&FE, 1);
+    for (int i = np + nc + nr; i < np + nc + nr + npk; i++) { void *r = 0; myth_join(TH[i], &r); }
+    MVH_CHECK(fe_peeks == 2 * npk, "C09-COUNT", "%ld peeks completed, expected %d", (long)fe_peeks, 2 * npk);
+    myth_felock_wait_and_lock(&FE, 1); fe_slot = 0; myth_felock_mark_and_signal(&FE, 0);
+  }
   long total = (long)np * nc * p[F_K];
   MVH_CHECK(fe_consumed == total, "C09-COUNT", "%ld items consumed, %ld produced", (long)fe_consumed, total);
   for (long x = 0; x < total; x++) MVH_CHECK(fe_seen[x] == 1, "C09-ITEM", "item %ld was never consumed", x);
